@@ -610,3 +610,30 @@ Theorem C15_source_male_lr : forall gstat auto_l auto_w vals w female_shift male
     (med_diff auto_l auto_w (Proofs.FnCnaryChrom.shifted vals male_shift) w)
     (some_of (mood_stat gstat auto_l (Proofs.FnCnaryChrom.shifted vals male_shift))).
 Proof. exact Proofs.FnCnaryChrom.fn_male_lr_eq. Qed.
+
+From CNV Require Proofs.FnCnaryCenter Proofs.FnCnaryEstimator.
+
+(* center_all after the selection (`if cnarr: ... self.data["log2"] += shift`), per row: nothing selected -> untouched;
+   otherwise log2 - estimator(per-chromosome estimates | selected values), by_chrom deciding which; no other column moves *)
+Theorem C15_source_center_all : forall est by_chrom skip_low build t verbose,
+  let sel := center_selection skip_low build t in
+  Forall2 (fun b b' => other_columns_same b b' /\
+                       b_log2 b' == Gen.FnCnaryCenter.fn_center_row (Proofs.FnCnaryCenter.nonempty sel) by_chrom verbose est
+                                      (map est (group_log2 sel)) (map b_log2 sel) (b_log2 b))
+          t (center_all est by_chrom skip_low build t).
+Proof. exact Proofs.FnCnaryCenter.fn_center_all_eq. Qed.
+
+(* the estimator dispatch: a known name selects the model's estimator out of the table est_funcs, a callable is itself,
+   and the code raises ValueError exactly on the names the model does not know *)
+Theorem C15_source_estimator_name : forall kde s e,
+  est_of_name s = Some e ->
+  Gen.FnCnaryEstimator.fn_center_estimator (inl s) qmean median (mode_of kde) biweight = est_fun kde e.
+Proof. exact Proofs.FnCnaryEstimator.fn_center_estimator_name. Qed.
+
+Theorem C15_source_estimator_callable : forall f m1 m2 m3 m4,
+  Gen.FnCnaryEstimator.fn_center_estimator (inr f) m1 m2 m3 m4 = f.
+Proof. exact Proofs.FnCnaryEstimator.fn_center_estimator_callable. Qed.
+
+Theorem C15_source_estimator_known : forall s m1 m2 m3 m4,
+  Gen.FnCnaryEstimator.fn_estimator_known s m1 m2 m3 m4 = match est_of_name s with Some _ => true | None => false end.
+Proof. exact Proofs.FnCnaryEstimator.fn_estimator_known_eq. Qed.
